@@ -27,23 +27,27 @@ structure SqlType where
 
 def intTypes : List String := ["bigint", "int", "smallint", "tinyint"]
 
+/-- `_decimal_digits_for(limit)`: `len(str(limit + 1))`, the digits needed for any integer whose sign-adjusted limit is
+`limit` (a negative limit's absolute value can be bigger by 1) -/
+def decimalDigitsFor (limit : Int) : Int := ((natRepr (limit + 1).toNat).length : Nat)
+
 /-- `dialect.sql_type(("int", limit))` followed by the rendering rule of `create_table_statement`
 (no arguments for the names in `_INT_TYPES`) -/
 def intColumnType (d : Dialect) (limit : Int) : SqlType :=
   let raw : String × List Int := match d with
     | .ansi => ("int", [limit])
-    | .pl => if limit > MAX_INTEGER then ("number", [limit, 0]) else ("int", [limit])
+    | .pl => if limit > MAX_INTEGER then ("number", [decimalDigitsFor limit, 0]) else ("int", [limit])
     | .transact =>
       if limit ≤ MAX_TINYINT then ("tinyint", [limit])
       else if limit ≤ MAX_SMALLINT then ("smallint", [limit])
       else if limit ≤ MAX_INTEGER then ("int", [limit])
       else if limit ≤ MAX_BIGINT then ("bigint", [limit])
-      else ("decimal", [limit, 0])
+      else ("decimal", [decimalDigitsFor limit, 0])
     | .db2 =>
       if limit ≤ MAX_SMALLINT then ("smallint", [limit])
       else if limit ≤ MAX_INTEGER then ("integer", [limit])
       else if limit ≤ MAX_BIGINT then ("bigint", [limit])
-      else ("decimal", [limit])
+      else ("decimal", [decimalDigitsFor limit])
   if intTypes.contains raw.1 then ⟨raw.1, []⟩ else ⟨raw.1, raw.2⟩
 
 /-- one column of the statement -/
